@@ -427,7 +427,7 @@ func lemma_C05_objectTrailing(k, t0, t1 byte, bits uint64) bool {
 
 // ECMA array {k: String}: marker 08, 32-bit count, pairs, end marker; round trip
 //@ bounded lemma_C05_ecmaRoundtrip 4
-//@ lemma C05.ecma.roundtrip.bounded C06.ecma.layout.bounded
+//@ lemma C05.ecma.roundtrip.bounded C06.ecma.layout.bounded C03.amf0.ecma.roundtrip.bounded
 func lemma_C05_ecmaRoundtrip(count uint32) bool {
 	k, s := spec_anyKey(2), spec_anyKey(3)
 	o := NewEcmaArray()
@@ -558,4 +558,47 @@ func lemma_C06_emptyName(flag byte) bool {
 	}
 	b2, err := q.MarshalBinary()
 	return err == nil && len(b2) == len(b) && (flag > 1 || prim_eqbytes(b2, b)) // (a foreign true byte other than 1 is re-written as 1)
+}
+
+// AMF0 2.5/2.11: the object ends at an EMPTY name followed by 09; a named property whose value marker is 09 is not an
+// end (09 is not a value type): such bytes are rejected, never taken as a shorter object
+//@ bounded lemma_C05_namedEndMarker 4
+//@ lemma C05.object.named-end-marker.bounded C06.object.named-end-marker.bounded C07.object.named-end-marker.bounded
+func lemma_C05_namedEndMarker(k byte) bool {
+	b := []byte{3, 0, 1, k, 9, 0, 0, 9}
+	q := NewObject()
+	return q.UnmarshalBinary(b) != nil
+}
+
+// a value marker the library does not support is an error inside a container too (never skipped, never mis-sized)
+//@ bounded lemma_C06_unsupportedInContainer 4
+//@ lemma C06.container.unsupported-marker.bounded C05.container.unsupported-marker.bounded
+func lemma_C06_unsupportedInContainer(k, m byte) bool {
+	switch m {
+	case 0, 1, 2, 3, 5, 6, 8, 9, 10: // number, boolean, string, object, null, undefined, ECMA array, object end, strict array
+		return true
+	}
+	b := []byte{3, 0, 1, k, m, 0, 0, 9, 0, 0, 9}
+	q := NewObject()
+	if q.UnmarshalBinary(b) == nil {
+		return false
+	}
+	e := NewEcmaArray()
+	return e.UnmarshalBinary([]byte{8, 0, 0, 0, 1, 0, 1, k, m, 0, 0, 9, 0, 0, 9}) != nil
+}
+
+// the smallest elements there are: an empty name and a value that is only a marker (null, undefined): 3 bytes each
+//@ bounded lemma_C05_strictSmallestElements 4
+//@ lemma C05.strict.smallest-elements.bounded
+func lemma_C05_strictSmallestElements(u bool) bool {
+	m := byte(5)
+	if u {
+		m = 6
+	}
+	b := []byte{10, 0, 0, 0, 1, 0, 0, m}
+	a := NewStrictArray()
+	if err := a.UnmarshalBinary(b); err != nil {
+		return false
+	}
+	return a.Size() == len(b)
 }
